@@ -794,4 +794,96 @@ def Pre_fromArray (ashape : MatS) (rdims cdims : Option (List Int)) (tshape : Li
 instance (ashape : MatS) (rdims cdims : Option (List Int)) (tshape : List Nat) :
     Decidable (Pre_fromArray ashape rdims cdims tshape) := by unfold Pre_fromArray; split <;> infer_instance
 
+/-! ### input classes added after the mutation study: extents given as integers, multiplicands that
+are not plain vectors, components that are missing or of another element type, region keys -/
+
+/-- `sptensor(subs, vals, shape)` / `from_aggregator` with the extents as the caller wrote them
+(integers: a shape like `(2, -3)` or `(2, 0)` can be written down) -/
+structure SubsArgsI where
+  shape : List Int
+  width : Nat
+  subs : List (List Int)
+  nvals : Nat
+
+/-- the same request with the extents read as natural numbers (a non-positive extent becomes 0,
+which no subscript fits) -/
+def SubsArgsI.toNat (a : SubsArgsI) : SubsArgs :=
+  { shape := a.shape.map Int.toNat, width := a.width, subs := a.subs, nvals := a.nvals }
+
+/-- every extent is positive, and the request is well formed in the sense of `Pre_subs` -/
+def Pre_subsI (a : SubsArgsI) : Prop := (∀ e ∈ a.shape, 0 < e) ∧ Pre_subs a.toNat
+
+instance (a : SubsArgsI) : Decidable (Pre_subsI a) := by unfold Pre_subsI; infer_instance
+
+/-- the shape a multiplicand of `ttsv` has once the stated conventions have been applied: an
+array is squeezed (`none`: more than one non-trivial dimension is left, it is not a vector), a
+(nested) list is taken as it is written -/
+def vectorShape (vshape : List Nat) (isList : Bool) : Option (List Nat) :=
+  if isList then some vshape
+  else if (vshape.filter (fun e => e != 1)).length ≤ 1 then some [numel vshape] else none
+
+/-- the length the multiplicand counts as: its size when it is a vector, and otherwise a length
+that no mode of the tensor has (`1 +` the sum of the extents), so that it fits no mode -/
+def TtsvArgs.withMultiplicand (a : TtsvArgs) (vshape : List Nat) (isList : Bool) : TtsvArgs :=
+  { a with veclen := match vectorShape vshape isList with
+      | some [n] => n
+      | _ => a.shape.sum + 1 }
+
+/-- `ttsv(vector, skip_dim, version)` with the multiplicand described by its shape and kind
+(array / nested list): the `ttsv` precondition for the length it counts as -/
+def Pre_ttsvM (a : TtsvArgs) (vshape : List Nat) (isList : Bool) : Prop :=
+  Pre_ttsv (a.withMultiplicand vshape isList)
+
+instance (a : TtsvArgs) (vshape : List Nat) (isList : Bool) : Decidable (Pre_ttsvM a vshape isList) := by
+  unfold Pre_ttsvM; infer_instance
+
+/-- `ttensor(core, factors)`: both components are given, or neither (the empty Tucker tensor) -/
+def Pre_ttensorGiven (core factors : Bool) : Prop := core = factors
+
+instance (core factors : Bool) : Decidable (Pre_ttensorGiven core factors) := by unfold Pre_ttensorGiven; infer_instance
+
+/-- `ktensor(factors, weights)`: the factor matrices (and the weights, when given) are arrays of
+floating-point numbers, and the sizes fit (`Pre_ktensor`) -/
+def Pre_ktensorTyped (fs : List MatS) (nw : Option Nat) (factorsFloat weightsFloat : Bool) : Prop :=
+  factorsFloat = true ∧ (nw.isSome = true → weightsFloat = true) ∧ Pre_ktensor fs nw
+
+instance (fs : List MatS) (nw : Option Nat) (ff wf : Bool) : Decidable (Pre_ktensorTyped fs nw ff wf) := by
+  unfold Pre_ktensorTyped; infer_instance
+
+/-- `sptensor.subdims(region)`: one region entry per mode -/
+def Pre_subdims (N len : Nat) : Prop := len = N
+
+instance (N len : Nat) : Decidable (Pre_subdims N len) := by unfold Pre_subdims; infer_instance
+
+/-- one entry of a region key: an integer position, a slice (with or without an explicit stop),
+or a list of that many indices -/
+inductive KeyEntry where
+  | int
+  | slice (stopGiven : Bool)
+  | list (len : Nat)
+  deriving DecidableEq, Repr
+
+/-- the entries that span a mode of the right-hand side (integers select one position) -/
+def keyModes (key : List KeyEntry) : List KeyEntry := key.filter (fun e => e != KeyEntry.int)
+
+/-- what the `m`-th spanning entry asks of a right-hand side of shape `rhs`: an index list has as
+many entries as the right-hand side has indices in its `m`-th mode; an open slice takes its
+extent from that mode, which therefore has to exist -/
+def KeyEntry.fits (rhs : List Nat) (e : KeyEntry) (m : Nat) : Prop :=
+  match e with
+  | .list len => m < rhs.length ∧ len = rhs.getD m 0
+  | .slice false => m < rhs.length
+  | _ => True
+
+instance (rhs : List Nat) (e : KeyEntry) (m : Nat) : Decidable (e.fits rhs m) := by
+  unfold KeyEntry.fits; split <;> infer_instance
+
+/-- `S[region] = sptensor`: every spanning entry of the region fits the mode of the right-hand
+side it is paired with -/
+def Pre_spAssign (key : List KeyEntry) (rhs : List Nat) : Prop :=
+  ∀ m, m < (keyModes key).length → ((keyModes key).getD m KeyEntry.int).fits rhs m
+
+instance (key : List KeyEntry) (rhs : List Nat) : Decidable (Pre_spAssign key rhs) := by
+  unfold Pre_spAssign; exact inferInstanceAs (Decidable (∀ m, m < (keyModes key).length → _))
+
 end Pyttb
